@@ -1891,11 +1891,17 @@ def _mirror_induction_attr(mods: dict[str, Module], inv: dict, log: list[str]) -
                 v = lp.target.id
                 ks = [k for k, st in enumerate(lp.body) if isinstance(st, ast.Assign) and len(st.targets) == 1 and isinstance(st.targets[0], ast.Attribute)
                       and isinstance(st.targets[0].value, ast.Name) and ast.unparse(st.value) in (f"{v} + 1", f"1 + {v}")]
+                # `self.A += 1` (or `self.A = self.A + 1`) keeps step with v as well, when the loop starts at the value of self.A
+                ks += [k for k, st in enumerate(lp.body) if (isinstance(st, ast.AugAssign) and isinstance(st.op, ast.Add) and isinstance(st.target, ast.Attribute) and isinstance(st.target.value, ast.Name)
+                                                             and isinstance(st.value, ast.Constant) and st.value.value == 1)
+                       or (isinstance(st, ast.Assign) and len(st.targets) == 1 and isinstance(st.targets[0], ast.Attribute) and isinstance(st.targets[0].value, ast.Name)
+                           and ast.unparse(st.value) in (f"{ast.unparse(st.targets[0])} + 1", f"1 + {ast.unparse(st.targets[0])}"))]
                 if len(ks) != 1:
                     continue
                 kpos = ks[0]
                 last = lp.body[kpos]
-                attr = last.targets[0]
+                attr = last.target if isinstance(last, ast.AugAssign) else last.targets[0]
+                attr = ast.Attribute(value=attr.value, attr=attr.attr, ctx=ast.Load())
                 atxt = ast.unparse(attr)
                 A = attr.attr
                 if any(fw._kills(st, {v}, {A}) for k, st in enumerate(lp.body) if k != kpos) or any(isinstance(x, ast.Continue) for x in ast.walk(lp)):
